@@ -18,6 +18,9 @@ import Parsley.Props.C16
 import Parsley.Props.C05
 import Parsley.Props.C07
 import Parsley.Props.C13
+import Parsley.Props.C14
+import Parsley.Props.C11
+import Parsley.Props.C09
 namespace Parsley.C01
 open Parsley
 
@@ -35,11 +38,21 @@ theorem pipeline_stages_never_panic_partial :
     (∀ (d : Xref.Dict) (p : String), Xref.getDictInfo d ≠ .panic p) ∧
     -- predictor reversal for every value of /Predictor /Colors /Columns /BitsPerComponent
     (∀ (predictor colors columns bpc : Option Int) (decoded : Bytes),
-        (Pred.transformTail predictor colors columns bpc decoded).isPanic = false) :=
+        (Pred.transformTail predictor colors columns bpc decoded).isPanic = false) ∧
+    -- object streams (ObjStreamP), for any non-panicking stream decoder and all /N, /First, offsets
+    (∀ (dec : ObjStm.Decoder) (vbase : Nat) (ctx : ObjStm.Ctx) (dict : ObjStm.Dict) (view : Bytes) (cur : Nat),
+        (∀ f d p, dec f d ≠ .panic p) → (∀ f d d', dec f d = .ok d' → d'.length ≤ 2 ^ 63) →
+        vbase + view.length ≤ 2 ^ 63 → ctx.depth.cur ≤ ctx.depth.max → ObjStm.DefsSorted ctx.defs →
+        (ObjStm.objStmParse dec vbase ctx dict view cur).1.isPanic = false) ∧
+    -- page DOM construction (to_page_dom): terminates within |defs|+1 loop iterations, never panics
+    (∀ (defs : PageDom.Defs) (cat : Obj.Obj) (fuel : Nat), defs.length + 1 ≤ fuel →
+        PageDom.toPageDomFuel defs fuel cat = PageDom.toPageDom defs cat ∧ ∀ p, PageDom.toPageDom defs cat ≠ .panic p) :=
   ⟨fun c s i hi hc => ⟨C16.parse_never_panics c s i hi hc, C16.depth_restored c s i hi hc⟩,
    fun c s i hi hc => (C05.indirect_never_panics c s i hi hc).1,
    C13.table_never_panics,
    C13.dictinfo_never_panics,
-   C07.predictor_never_panics⟩
+   C07.predictor_never_panics,
+   C14.objstm_never_panics,
+   C11.dom_terminates⟩
 
 end Parsley.C01
